@@ -4,7 +4,7 @@ import XrsVerif.Proofs.ILProxNumpyDefs
   line, reading / storing a line of distances): each ends in `run`, changes only the loop counter `i` and the
   arrays it writes (`Only`), and its effect is given entry by entry.
 -/
-namespace XrsVerif.IL
+namespace XrsVerif.IL.Px
 open XrsVerif
 variable {F : Type} [Fl F]
 set_option linter.unusedSectionVars false
@@ -192,4 +192,4 @@ theorem storeDistance_exec (st : State F) (fuel H W n : Nat) (hs : st.ctl = .run
         rw [getD_set_ne _ _ _ _ _ (by omega)]
         exact hj j (by omega))
 
-end XrsVerif.IL
+end XrsVerif.IL.Px
